@@ -150,7 +150,7 @@ impl Prop for C10 {
         "model_checking"
     }
     fn rule(&self) -> String {
-        "explicit exploration of the refresh operation tree on the real code: roots = dealer and DKG groups; edges = Refresh(dealer|DKG, R) for EVERY remaining set R with |R|>=t; every path up to the depth bound is a case (no state merging); on every node: key fixed, packages re-linked, every t-subset signs, EVERY strict old/new mix and every set with a removed member fails, four refusals refuse. states = tree nodes, transitions = refresh operations + signing attempts + refusal attempts executed".into()
+        "explicit exploration of the refresh operation tree on the real code: roots = dealer and DKG groups; edges = Refresh(dealer|DKG, R) for EVERY remaining set R with |R|>=t; every path up to the depth bound is a case (no state merging); on every node: key fixed, packages re-linked, every t-subset signs, EVERY strict old/new mix and every set with a removed member fails, four refusals refuse (threshold change by all and by EACH single member acting as an attacker, unknown identifier, non-zero constant term); tiny field: EVERY refresh coefficient vector; one large group (40 participants). states = tree nodes, transitions = refresh operations + signing attempts + refusal attempts executed".into()
     }
     fn assumptions(&self) -> Vec<String> {
         vec![
